@@ -16,12 +16,16 @@ CONSTANT Mode    \* "json" | "path" | "req" | "seq"
 \* schema node kinds at which a JSON value is placed
 NodeKinds == {"container", "presence", "list", "ordered-list", "multikey-list", "unkeyed-list", "leaf-list",
               "leaf-int", "leaf-int64", "leaf-string", "leaf-bool", "leaf-enum", "leaf-identityref", "leaf-union", "leaf-binary",
-              "leaf-empty", "leaf-decimal", "list-entry-member", "root"}
+              "leaf-empty", "leaf-decimal", "list-entry-member", "root",
+              \* compressed (OpenConfig-style) placements: a field reachable through two JSON paths (config/k and k)
+              "oc-list", "oc-ordered-list", "oc-multikey-list"}
 
 \* JSON value kinds
 JsonKinds == {"null", "true", "number", "negative", "fraction", "huge", "string", "empty-string", "object", "object-unknown-member",
               "object-null-member", "object-nested-unknown", "array-empty", "array-null", "array-number", "array-string", "array-object",
-              "array-object-no-key", "array-object-bad-key", "array-object-dup-key", "array-array", "array-mixed", "array-null-object", "deep-nesting"}
+              "array-object-no-key", "array-object-bad-key", "array-object-dup-key", "array-array", "array-mixed", "array-null-object", "deep-nesting",
+              \* a list key given at both of its JSON paths: equal arrays, equal objects, different scalars, null and scalar
+              "array-object-key-twice-array", "array-object-key-twice-object", "array-object-key-twice-differ", "array-object-key-twice-null"}
 
 ExpectJson(n, v) ==
   CASE n \in {"container", "presence", "root"} /\ v \in {"object"} -> "ok"
